@@ -5,6 +5,7 @@ Model: DTML/Render.lean (`Piece`, `joinPieces` = render_blocks' 0 / 1 / n rule, 
 bytes, `pieceOfVal`, `ustr`).
 -/
 import DTML.Render
+import DTML.Lemmas.Join
 set_option linter.unusedVariables false
 namespace DTML.Props.C19
 open DTML.Render
@@ -207,5 +208,111 @@ example : decodeAll { utf8 := false } [.text "a".toList, .bytes [0xC3, 0xA9]] = 
 -- invalid UTF-8 fails to decode
 example : decodeAll { utf8 := true } [.text "a".toList, .bytes [0xE9]] = none := by
   decide +kernel
+
+
+/-! #### `join_unicode` and `render_blocks` as translated from the source on every run (DTML/GenJoin.lean)
+
+The generated definitions are proved equal to the model functions the theorems above are stated about, for every list of
+pieces.  `encodingIs env encoding`: the `encoding` argument stands for the template encoding of the model (`None` =
+Latin-1, the value of `OLD_DEFAULT_ENCODING` the generated code reads from the package). -/
+
+open DTML.GenJoin DTML.Lemmas.Join in
+/-- `if encoding is None: encoding = _dt.OLD_DEFAULT_ENCODING` leaves a name that means the template encoding -/
+theorem gen_join_unicode_default_encoding (env : Env) (encoding : Option Text) (h : encodingIs env encoding) :
+    resolved env (if encoding = none then some OLD_DEFAULT_ENCODING else encoding) := by
+  cases encoding with
+  | none =>
+    simp only [encodingIs] at h
+    refine ⟨OLD_DEFAULT_ENCODING, by simp, ?_⟩
+    rw [h]
+    decide
+  | some e => exact ⟨e, by simp, h⟩
+
+open DTML.GenJoin DTML.Lemmas.Join in
+/-- one round of `for i in range(len(rendered))`: the element at the index is decoded if it is bytes and stored back -/
+theorem gen_join_unicode_loop_body (env : Env) (encoding : Option Text) (h : resolved env encoding) :
+    BodySpec env (joinUnicodeLoopBody encoding) := by
+  obtain ⟨e, rfl, hc⟩ := h
+  intro pre x suf
+  have hget : pyGetItem (pre ++ x :: suf) pre.length = .ok x := by simp [pyGetItem]
+  have hset : ∀ y, pySetItem (pre ++ x :: suf) pre.length y = .ok (pre ++ y :: suf) := by
+    intro y; simp [pySetItem]
+  unfold joinUnicodeLoopBody
+  cases x with
+  | text s => simp only [hget, bindR, isBytes, Bool.false_eq_true, if_false, decodeOne]
+  | bytes b =>
+    simp only [hget, hset, bindR, isBytes, if_true, decodeOne, pyDecode, hc, decodeBytes_utf8]
+    cases decodeBytes env b with
+    | none => rfl
+    | some s => rfl
+
+open DTML.GenJoin DTML.Lemmas.Join in
+/-- **`join_unicode` of the source is `joinUnicode` of the model** (every list of pieces, any length) -/
+theorem gen_join_unicode_is_model (env : Env) (encoding : Option Text) (h : encodingIs env encoding)
+    (rendered : List Piece) : joinUnicodeGen rendered encoding = joinUnicode env rendered := by
+  unfold joinUnicodeGen
+  cases ht : allText rendered with
+  | some ts =>
+    simp only [pyJoin, ht, tryExcept]
+    exact (join_texts_is_model env rendered ts ht).symm
+  | none =>
+    have hm : excMatches ["UnicodeError".toList, "TypeError".toList] typeError = true := by decide
+    simp only [pyJoin, ht, tryExcept, hm, if_true]
+    exact fixup_then_join env _
+      (gen_join_unicode_loop_body env _ (gen_join_unicode_default_encoding env encoding h)) rendered
+
+open DTML.GenJoin DTML.Lemmas.Join in
+/-- **`render_blocks` of the source, from the statement after the call of `render_blocks_` on, is `joinPieces`**: no piece
+gives `''`, one piece is returned as it is, more are handed to `join_unicode` -/
+theorem gen_render_blocks_is_model (env : Env) (encoding : Option Text) (h : encodingIs env encoding)
+    (rendered : List Piece) : renderBlocksTailGen rendered encoding = joinPieces env rendered := by
+  unfold renderBlocksTailGen
+  match rendered with
+  | [] => rfl
+  | [p] => rfl
+  | a :: b :: t =>
+    have h0 : ¬ (a :: b :: t).length = 0 := by simp
+    have h1 : ¬ (a :: b :: t).length = 1 := by simp
+    simp only [h0, h1, if_false, joinPieces]
+    exact gen_join_unicode_is_model env encoding h _
+
+open DTML.GenJoin DTML.Lemmas.Join in
+/-- the whole of `render_blocks(blocks, md, encoding)` - the pieces `render_blocks_` collects (`renderBlocks`), then the
+translated statements - is what a tag object returns in the model (`renderJoined`) -/
+theorem gen_render_blocks_is_renderJoined (env : Env) (encoding : Option Text) (h : encodingIs env encoding)
+    (fuel : Nat) (body : List Blk) (st : St) :
+    renderJoined env (fuel + 1) body st =
+      (match renderBlocks env fuel body st with
+       | (.ok rendered, st1) => (renderBlocksTailGen rendered encoding, st1)
+       | (.raise e, st1) => (.raise e, st1)
+       | (.ret v, st1) => (.ret v, st1)
+       | (.oom, st1) => (.oom, st1)) := by
+  simp only [renderJoined]
+  rcases hr : renderBlocks env fuel body st with ⟨r, st1⟩
+  cases r with
+  | ok ps =>
+    simp only [joinRes, gen_render_blocks_is_model env encoding h]
+    cases ps with
+    | nil => rfl
+    | cons a t =>
+      cases t with
+      | nil => rfl
+      | cons b t =>
+        simp only [joinPieces]
+        rcases joinUnicode_total env (a :: b :: t) with ⟨p, hp⟩ | ⟨e, he⟩
+        · rw [hp]
+        · rw [he]
+  | raise e => rfl
+  | ret v => rfl
+  | oom => rfl
+
+-- the hypothesis is satisfiable: a UTF-8 template hands its encoding on, a Latin-1 template hands on its name or nothing
+open DTML.Lemmas.Join in
+example : encodingIs { utf8 := true } (some "utf-8".toList) ∧ encodingIs { utf8 := true } (some "UTF-8".toList) ∧
+    encodingIs { utf8 := false } none ∧ encodingIs { utf8 := false } (some "latin-1".toList) ∧
+    encodingIs { utf8 := false } (some "Latin-1".toList) := by decide
+-- and it says something: the default is not UTF-8
+open DTML.Lemmas.Join in
+example : ¬ encodingIs { utf8 := true } none := by decide
 
 end DTML.Props.C19
